@@ -167,6 +167,15 @@ CHECKS["C18"] = dict(
     level_text="Bounded symbolic execution over every program of L builder calls with symbolic arguments: the emitted message equals an independently built expected message, emitted messages are immune to later builder calls, ids and election-id stamping follow the documented rules.",
     level_note="Trusted: go/ssa, gosym (proto.Clone/Equal stubs), z3.")
 
+CHECKS["C15"] = dict(
+    runs=[dict(pkg="rib/reconciler", harness="VfC15_reconcile_q", load=["rib/reconciler"], reach=["end", "built"], thorough=dict(skip=True), opts=dict(only=["C15:"]),
+               bounds="intended and target RIB each built canonically with symbolic contents (1 next-hop, 1 group <=1 member, 1 IPv4/MPLS entry in either of two instances, all optional), optionally a third instance only the target has (one next-hop); Reconcile, operations applied to the target's real RIB in the documented order, result compared with the intended reference; second Reconcile must be empty; symbolic id base"),
+          dict(pkg="rib/reconciler", harness="VfC15_reconcile_t", load=["rib/reconciler"], reach=["end", "built"], quick=dict(skip=True), opts=dict(only=["C15:"], budget_s=1500),
+               bounds="as reconcile_q with 2 next-hops, groups of <=2 members (make-before-break swaps), all three top-level kinds")],
+    assumptions=["LocalRIB targets only; RemoteRIB (gRPC Get + FromGetResponses) is covered by C07's FromGetResponses check, the transport is outside", "ConcreteXXXProto / candidateRIB / MergeStructInto / DeepCopy / DeepEqual are the models and structural stubs of DESIGN.md section 4"],
+    level_text="Bounded symbolic execution of diff/Reconcile over two symbolic RIBs, followed by application of the emitted operations to the real target RIB: success of every operation, convergence to the intended contents and id allocation are decided for all symbolic contents.",
+    level_note=_RIBNOTE)
+
 NOT_APPLICABLE = {
     "C19": "whole compliance-suite runs over in-memory gRPC against wrapped servers in every order: a whole-program execution through gRPC, testing and reflection; no bounded symbolic encoding within reach (DESIGN.md §8)",
 }
